@@ -27,12 +27,16 @@ RULE = (
 ASSUMPTIONS = [
     "position match tolerance 1e-6 x smallest cell edge (cells are >= 1e-2 apart; file positions carry 8 decimals)",
     "negative indices address from the end as in Python (the shipped cube example uses get_slice(0, -1))",
+    "an operation 'in tier k' includes its curved side edges: the arc points of revolved / mid-transformed stacks are "
+    "compared with layer map k x mid map applied to the base sketch corners (1e-6 x cell size)",
     "in a lofted Grid the local axes of every operation are (column direction, row direction, sweep), so a count chop "
     "placed through grid[k][j][i] must show up in the hex decoded at (i, j, k)",
     "'on the outer surface': distance from the intended curve <= 1e-6 R + 5e-8; core points are >= 0.05 R away from it",
     "WrappedDisk has three tiers: core/shell membership is checked by position, exhaustiveness is not (DESIGN section 5)",
-    "Mesh.delete is user input like the depot: the written file must be the same whether the mesh is written directly, "
-    "after assemble + backport, after assemble + clear, or for the second time (history drawn per case)",
+    "Mesh.delete is user input like the depot: the written file must be the same for every drawn history of public "
+    "Mesh calls around it (write / assemble+backport / assemble+clear / write twice, and the delete placed between two "
+    "assemblies: assemble, clear, delete, [assemble, backport,] write - the order of the shipped cube example), and no "
+    "operation may have moved (backport writes unchanged vertex positions back)",
     "the end cross-section of a swept sketch is the image of the start sketch under the sweep computed by the harness "
     "(translation / rotation / scaling by Rodrigues); face centres are compared at 1e-6 x sketch size",
     "a caller may modify a list it was handed by a property or method that computes it on request (shape.operations, "
@@ -140,6 +144,17 @@ def check_stack(case, ctx: Ctx) -> None:
     stack = spec.extra["shape"]
 
     sizes = (n1, n2, t)
+    layer_maps = xs.stack_maps(sp, q, place)
+    mid_map = xs.stack_mid_map(sp, q, place)
+    gx, gy, _ = xs.sketch_origin(sp)
+    gM = xs.frame(place)
+    base_quads = {
+        (i, j): np.array([W(gM, [gx + (i + a_) * sp["r"] / n1, gy + (j + b_) * sp["r"] * sp["aspect"] / n2, 0.0])
+                          for a_, b_ in ((0, 0), (1, 0), (1, 1), (0, 1))])
+        for i, j in itertools.product(range(n1), range(n2))
+    }
+
+    arcs_seen = [0]
 
     def positional(stack, facts_) -> None:
         # (a) grid[k][j][i] is column i, row j, tier k
@@ -153,6 +168,23 @@ def check_stack(case, ctx: Ctx) -> None:
             if got != (i, j, k):
                 raise Violation("grid-address", f"grid[{k}][{j}][{i}] lies at cell (column, row, tier) = {got}",
                                 index=[k, j, i], **facts_)
+        # the whole operation occupies tier k: the control points of its curved side edges (revolved stacks, transformed
+        # stacks with mid transforms) are where the harness's own layer and mid maps put them
+        if mid_map is not None:
+            for k, j, i in itertools.product(range(t), range(n2), range(n1)):
+                op = grid[k][j][i]
+                for corner in range(4):
+                    edge = op.side_edges[corner]
+                    if not hasattr(edge, "point"):
+                        continue  # not a three-point arc: nothing positional to judge
+                    arcs_seen[0] += 1
+                    want = rm.apply(layer_maps[k] @ mid_map, base_quads[(i, j)][corner])
+                    got = np.asarray(edge.point.position, float)
+                    if np.linalg.norm(got - want) > 1e-6 * cell + 1e-9:
+                        raise Violation(
+                            "side-edge-address",
+                            f"grid[{k}][{j}][{i}]: the arc point of side edge {corner} lies {np.linalg.norm(got - want):.3g} "
+                            f"away from the middle of tier {k}", index=[k, j, i], **facts_)
         # the two-level grids of the base sketch and of each tier's shape follow the same rule
         base = stack.shapes[0].sketch_1
         M = xs.frame(place)
@@ -238,10 +270,12 @@ def check_stack(case, ctx: Ctx) -> None:
                 op.chop(axis, count=cnt)
         mesh2 = cb.Mesh()
         mesh2.add(stack2)
-        mesh2.delete(stack2.grid[k][j][i])
         history = case.get("history", "write")
-        dec2 = write_after(mesh2, history, dict(facts, history=history), ctx)
+        ops2 = stack2.operations
+        before = {n_: np.asarray(op.point_array, float).mean(axis=0) for n_, op in enumerate(ops2)}
+        dec2 = write_after(mesh2, stack2.grid[k][j][i], history, dict(facts, history=history), ctx)
         if dec2 is not None:
+            check_unmoved(ops2, before, 1e-6 * cell + 5e-8, dict(facts, history=history))
             left = sorted(decode(dec2.centroid(h)) or (-1, -1, -1) for h in range(len(dec2.hexes)))
             want = sorted(cc for cc in centres if cc != (i, j, k))
             if left != want:
@@ -255,6 +289,8 @@ def check_stack(case, ctx: Ctx) -> None:
     ctx.nt(general and len({n1, n2, t}) == 3)
     ctx.label("general" if general else "aligned", "sizes-distinct" if len({n1, n2, t}) == 3 else "sizes-repeat",
               f"cells<={10 * ((n1 * n2 * t + 9) // 10)}", "caller:" + how, "single-row" if n2 == 1 else "multi-row")
+    if mid_map is not None:
+        ctx.label("side-arcs-addressed" if arcs_seen[0] else "side-arcs-absent", "tiers>=2" if t >= 2 else "tiers=1")
 
 
 # --------------------------------------------------------------------------------------------------
@@ -292,26 +328,53 @@ def check_partition(name: str, core, shell, everything, touches, facts: dict, ex
                                 **facts)
 
 
-HISTORIES = ["write", "assemble-backport-write", "assemble-clear-write", "write-twice"]
+# What happens around mesh.delete() before the file that is judged is written: sequences of public Mesh calls.  A
+# deletion is the user's instruction like the depot itself, so whatever the order of assemble / clear / backport around
+# it (the shipped cube example assembles, clears, deletes, and writes), the file holds every block but the deleted one and
+# no operation has moved.
+HISTORY_STEPS = {
+    "write": ["delete", "write"],
+    "assemble-backport-write": ["delete", "assemble", "backport", "write"],
+    "assemble-clear-write": ["delete", "assemble", "clear", "write"],
+    "write-twice": ["delete", "write", "write"],
+    "assemble-clear-delete-write": ["assemble", "clear", "delete", "write"],
+    "assemble-clear-delete-assemble-backport-write": ["assemble", "clear", "delete", "assemble", "backport", "backport",
+                                                      "write"],
+    "assemble-backport-clear-delete-assemble-backport-write": ["assemble", "backport", "clear", "delete", "assemble",
+                                                               "backport", "write"],
+}
+HISTORIES = list(HISTORY_STEPS)
 
 
-def write_after(mesh, history: str, facts: dict, ctx: Ctx):
-    """What happens between mesh.delete() and the file that is judged.  A deletion is the user's instruction like the
-    depot itself, so the file must be the same after every history.  -> Decoded, or None (inconclusive: some step of
-    the history raised, which is another property's business)"""
+def write_after(mesh, victim, history: str, facts: dict, ctx: Ctx):
+    """runs the history; -> Decoded of the last write, or None (inconclusive: some step of the history raised, which is
+    another property's business)"""
+    dec = None
     try:
-        if history == "assemble-backport-write":
-            mesh.assemble()
-            mesh.backport()
-        elif history == "assemble-clear-write":
-            mesh.assemble()
-            mesh.clear()
-        elif history == "write-twice":
-            xs.must_write(mesh, facts)
-        return xs.must_write(mesh, facts)
+        for step in HISTORY_STEPS[history]:
+            if step == "delete":
+                mesh.delete(victim)
+            elif step == "assemble":
+                mesh.assemble()
+            elif step == "clear":
+                mesh.clear()
+            elif step == "backport":
+                mesh.backport()
+            else:
+                dec = xs.must_write(mesh, facts)
+        return dec
     except Exception:  # noqa: BLE001  (Violation from must_write included)
         ctx.label("delete-write-inconclusive")
         return None
+
+
+def check_unmoved(ops: Sequence, cents: Dict[Any, np.ndarray], tol: float, facts: dict) -> None:
+    """no operation has left its location during the history (backport writes vertex positions back into operations)"""
+    for key, op in zip(cents, ops):
+        now = np.asarray(op.point_array, float).mean(axis=0)
+        if np.linalg.norm(now - cents[key]) > tol:
+            raise Violation("operation-moved", f"operation {key} sits {np.linalg.norm(now - cents[key]):.3g} away from its "
+                            "location after the history", moved=str(key), **facts)
 
 
 def delete_check(entity, ops: Sequence, victim, facts: dict, ctx: Ctx, history: str = "write") -> None:
@@ -324,12 +387,12 @@ def delete_check(entity, ops: Sequence, victim, facts: dict, ctx: Ctx, history: 
             op.chop(axis, count=2)
     mesh = cb.Mesh()
     mesh.add(entity)
-    mesh.delete(victim)
     facts = dict(facts, history=history)
-    dec = write_after(mesh, history, facts, ctx)
+    dec = write_after(mesh, victim, history, facts, ctx)
     if dec is None:
         return
     decode = Decoder(cents, 1e-6 * size + 5e-8)
+    check_unmoved(ops, cents, 1e-6 * size + 5e-8, facts)
     left = sorted(-1 if (d := decode(dec.centroid(h))) is None else d for h in range(len(dec.hexes)))
     gone = [k for k, op in enumerate(ops) if op is victim]
     want = sorted(k for k in cents if k not in gone)
